@@ -37,6 +37,11 @@ domain flags (read off docstrings / code)
   simple_ev  the leading eigenvector must be non-degenerate (ARPACK start
              vector is random): connected graphs, tolerance 1e-6
   f32    passes float32 storage or kernels: rtol 2e-5 / atol 2e-6
+  floatbin  histogram of a float-valued node sequence `src` (a method name;
+         called with the pattern minus n_bins): bin membership is
+         discontinuous in the float values, so when the histograms differ
+         although `src` agrees within the tolerance the case is
+         ill-conditioned, not a verdict
 """
 
 KINDS = ("global", "node", "pair", "node_x_k", "histogram", "operator",
@@ -47,14 +52,15 @@ TW = 2.0      # typical weight
 
 
 class M(object):
-    __slots__ = ("kind", "patterns", "flags", "sub")
+    __slots__ = ("kind", "patterns", "flags", "sub", "src")
 
-    def __init__(self, kind, patterns=None, flags=(), sub=None):
+    def __init__(self, kind, patterns=None, flags=(), sub=None, src=None):
         assert kind in KINDS, kind
         self.kind = kind
         self.patterns = [dict(p) for p in (patterns or [{}])]
         self.flags = frozenset(flags)
         self.sub = sub          # for kind == "dict"
+        self.src = src          # for "floatbin": the binned node sequence
 
     def has(self, flag):
         return flag in self.flags
@@ -97,8 +103,11 @@ _add("Network", {
     "degree_cdf": M("histogram"),
     "indegree_cdf": M("histogram"),
     "outdegree_cdf": M("histogram"),
-    "nsi_degree_histogram": M("histogram", _TW),
-    "nsi_degree_cumulative_histogram": M("histogram", _TW),
+    "nsi_degree_histogram": M("histogram", _TW, flags=("floatbin",),
+                              src="nsi_degree"),
+    "nsi_degree_cumulative_histogram": M("histogram", _TW,
+                                         flags=("floatbin",),
+                                         src="nsi_degree"),
     "average_neighbors_degree": M("node"),
     "max_neighbors_degree": M("node"),
     # "(not yet implemented for directed networks.)" -> NotImplementedError
@@ -108,7 +117,8 @@ _add("Network", {
     "local_clustering": M("node"),
     "global_clustering": M("global"),
     "transitivity": M("global"),
-    "higher_order_transitivity": M("global", [{"order": 3}, {"order": 4}]),
+    # order 3 returns self.transitivity() (covered there)
+    "higher_order_transitivity": M("global", [{"order": 4}]),
     "local_cliquishness": M("node", [{"order": 3}, {"order": 4},
                                      {"order": 5}], flags=("und",)),
     "local_cyclemotif_clustering": M("node", _KEY),
@@ -151,8 +161,9 @@ _add("Network", {
     "betweenness": M("node"),
     "link_betweenness": M("pair"),
     "edge_betweenness": M("pair"),
+    # goes through _nsi_betweenness (asserts a symmetric adjacency)
     "interregional_betweenness": M("node", [
-        {}, {"sources": "$L1", "targets": "$L2"}]),
+        {}, {"sources": "$L1", "targets": "$L2"}], flags=("und",)),
     # `_nsi_betweenness` asserts k.sum() == 2 * n_links (symmetric adjacency)
     "nsi_betweenness": M("node", [{}, {"sources": "$L1", "targets": "$L2"}],
                          flags=("und",)),
@@ -207,12 +218,13 @@ _add("SpatialNetwork", {
         flags=("f32",)),
 })
 
+# cos(lat) is taken from the grid's float32 latitude sequence
 _add("GeoNetwork", {
-    "area_weighted_connectivity": M("node"),
-    "inarea_weighted_connectivity": M("node"),
-    "outarea_weighted_connectivity": M("node"),
-    "average_neighbor_area_weighted_connectivity": M("node"),
-    "max_neighbor_area_weighted_connectivity": M("node"),
+    "area_weighted_connectivity": M("node", flags=("f32",)),
+    "inarea_weighted_connectivity": M("node", flags=("f32",)),
+    "outarea_weighted_connectivity": M("node", flags=("f32",)),
+    "average_neighbor_area_weighted_connectivity": M("node", flags=("f32",)),
+    "max_neighbor_area_weighted_connectivity": M("node", flags=("f32",)),
     "total_link_distance": M("node", _GC, flags=("f32",)),
     "intotal_link_distance": M("node", _GC, flags=("f32",)),
     "outtotal_link_distance": M("node", _GC, flags=("f32",)),
@@ -221,17 +233,23 @@ _add("GeoNetwork", {
     "outconnectivity_weighted_distance": M("node", flags=("f32",)),
     "local_geographical_clustering": M("node", flags=("f32",)),
     "area_weighted_connectivity_distribution": M(
-        "histogram", [{"n_bins": 3}]),
+        "histogram", [{"n_bins": 3}], flags=("f32", "floatbin"),
+        src="area_weighted_connectivity"),
     "inarea_weighted_connectivity_distribution": M(
-        "histogram", [{"n_bins": 3}]),
+        "histogram", [{"n_bins": 3}], flags=("f32", "floatbin"),
+        src="inarea_weighted_connectivity"),
     "outarea_weighted_connectivity_distribution": M(
-        "histogram", [{"n_bins": 3}]),
+        "histogram", [{"n_bins": 3}], flags=("f32", "floatbin"),
+        src="outarea_weighted_connectivity"),
     "area_weighted_connectivity_cumulative_distribution": M(
-        "histogram", [{"n_bins": 3}]),
+        "histogram", [{"n_bins": 3}], flags=("f32", "floatbin"),
+        src="area_weighted_connectivity"),
     "inarea_weighted_connectivity_cumulative_distribution": M(
-        "histogram", [{"n_bins": 3}]),
+        "histogram", [{"n_bins": 3}], flags=("f32", "floatbin"),
+        src="inarea_weighted_connectivity"),
     "outarea_weighted_connectivity_cumulative_distribution": M(
-        "histogram", [{"n_bins": 3}]),
+        "histogram", [{"n_bins": 3}], flags=("f32", "floatbin"),
+        src="outarea_weighted_connectivity"),
 })
 
 _add("ResNetwork", {
@@ -326,6 +344,9 @@ DELEGATES = {
     "nsi_internal_closeness_centrality": "nsi_cross_closeness_centrality",
     "nsi_internal_local_clustering": "nsi_cross_local_clustering",
 }
+
+# Pure aliases: a failure is reported under the key of the aliased method.
+ALIASES = {"edge_betweenness": "link_betweenness"}
 
 # Public callables that are not measures of the (relabelled) network.
 # name -> reason; matched on the method name in every class.
